@@ -7,7 +7,7 @@
 #define CAP 16
 #endif
 typedef int T;
-T* gp_data; int g_i, g_n;
+T* gp_data; T** gpp_data; int g_i, g_n, g_f, g_dst; T g_t; int g_mm;
 int g_k, g_s0, g_m0; T v_old;
 
 #define WF (__CPROVER_is_fresh(thesize, sizeof(int)) && __CPROVER_is_fresh(themax, sizeof(int)) \
@@ -17,7 +17,18 @@ int g_k, g_s0, g_m0; T v_old;
 #define WF_POST (1 <= *themax && 0 <= *thesize && *thesize <= *themax \
    && __CPROVER_rw_ok(__CPROVER_return_value, *themax * sizeof(T)))
 #define RET __CPROVER_return_value
-#define COMMON_ASSIGNS __CPROVER_assigns(gp_data, *thesize, *themax, __CPROVER_object_whole(data)) __CPROVER_frees(data)
+#define COMMON_ASSIGNS __CPROVER_assigns(gp_data, gpp_data, g_t, *thesize, *themax, __CPROVER_object_whole(data)) __CPROVER_frees(data)
+
+/* ISO C memmove, as a contract (used with --replace-call-with-contract): the destination range receives the OLD contents
+ * of the source range (stated at the ghost element g_mm = for every element), nothing else is written. */
+void* verif_memmove(void* dst, const void* src, size_t n)
+__CPROVER_requires(n % sizeof(T) == 0 && n <= 2 * CAP * sizeof(T))
+__CPROVER_requires(__CPROVER_r_ok(src, n))
+__CPROVER_requires(__CPROVER_w_ok(dst, n))
+__CPROVER_assigns(__CPROVER_object_upto(dst, n))
+__CPROVER_ensures(__CPROVER_return_value == dst)
+__CPROVER_ensures(!(0 <= g_mm && (size_t)g_mm < n / sizeof(T)) || ((T*)dst)[g_mm] == __CPROVER_old(((const T*)src)[g_mm]))
+;
 
 T* w_op(T* data, int* thesize, int* themax, double memFactor, int op, int a, int b, T t)
 #if defined(INST_reSize)
@@ -49,25 +60,25 @@ __CPROVER_ensures(*themax == ((a > b ? a : b) > 1 ? (a > b ? a : b) : 1))
 __CPROVER_ensures(!(g_k < *thesize) || RET[g_k] == v_old)
 #elif defined(INST_insert)
 /* insert(i, n): n uninitialised elements before position i; elements below i stay, elements from i on move up by n */
-__CPROVER_requires(WF && op == 1 && 0 <= a && a <= *thesize && 0 <= b && *thesize + b <= 2 * CAP)
-__CPROVER_requires(0 <= g_k && g_k < *thesize && v_old == data[g_k])
+__CPROVER_requires(WF && op == 1 && 0 <= a && a <= *thesize && 0 <= b && b <= 2 * CAP && *thesize + b <= 2 * CAP)
+__CPROVER_requires(0 <= g_k && g_k < *thesize && v_old == data[g_k] && g_mm == g_k - a)
 COMMON_ASSIGNS
 __CPROVER_ensures(WF_POST && *thesize == g_s0 + b)
 __CPROVER_ensures(RET[g_k < a ? g_k : g_k + b] == v_old)
 #elif defined(INST_insertVal)
 /* insert(i, n, t): as insert(i,n), and the n new elements i..i+n-1 equal t (ghost g_n in [0,n)) */
-__CPROVER_requires(WF && 0 <= a && a <= *thesize && 0 <= b && *thesize + b <= 2 * CAP && g_i == a && g_n == b)
-__CPROVER_requires(0 <= g_k && g_k < *thesize && v_old == data[g_k])
+__CPROVER_requires(WF && 0 <= a && a <= *thesize && 0 <= b && b <= 2 * CAP && *thesize + b <= 2 * CAP && g_i == a && g_n == b)
+__CPROVER_requires(0 <= g_k && g_k < *thesize && v_old == data[g_k] && g_mm == g_k - a && g_dst == (g_k < a ? g_k : g_k + b))
 COMMON_ASSIGNS
 __CPROVER_ensures(WF_POST && *thesize == g_s0 + b)
 __CPROVER_ensures(RET[g_k < a ? g_k : g_k + b] == v_old)
-__CPROVER_ensures(!(0 <= g_s0 && g_s0 < b) || RET[a + g_s0] == t)
+__CPROVER_ensures(!(0 <= g_f && g_f < b) || RET[a + g_f] == t)
 #elif defined(INST_remove)
 /* remove(n, m): m elements from position n are deleted (all elements from n on, if fewer than m follow); the elements
  * below n stay, the elements behind the deleted range move down; size() shrinks by the number deleted */
 #define M_EFF ((long long)a + b < g_s0 ? b : g_s0 - a)
-__CPROVER_requires(WF && op == 2 && 0 <= a && a < *thesize && 0 <= b)
-__CPROVER_requires(0 <= g_k && g_k < *thesize && v_old == data[g_k])
+__CPROVER_requires(WF && op == 2 && 0 <= a && a < *thesize && 0 <= b && b <= 2 * CAP)
+__CPROVER_requires(0 <= g_k && g_k < *thesize && v_old == data[g_k] && g_mm == g_k - a - b)
 COMMON_ASSIGNS
 __CPROVER_ensures(WF_POST && *thesize == g_s0 - M_EFF && RET == data && *themax == g_m0)
 __CPROVER_ensures(!(g_k < a) || RET[g_k] == v_old)
@@ -85,7 +96,7 @@ __CPROVER_ensures(!(g_k < *thesize) || RET[g_k] == v_old)
 void h_op(void)
 {
    T* data; int* thesize; int* themax; double memFactor; int op, a, b; T t;
-   g_k = nondet_int(); g_s0 = nondet_int(); g_m0 = nondet_int(); v_old = nondet_int(); g_i = nondet_int(); g_n = nondet_int();
+   g_k = nondet_int(); g_s0 = nondet_int(); g_m0 = nondet_int(); v_old = nondet_int(); g_i = nondet_int(); g_n = nondet_int(); g_mm = nondet_int(); g_t = nondet_int(); g_f = nondet_int(); g_dst = nondet_int();
    w_op(data, thesize, themax, memFactor, op, a, b, t);
    CANARY();
 }
